@@ -100,6 +100,8 @@ theorem mem_sdel {α} (l : List (String × α)) (k : String) (x : String × α) 
 
 theorem diff_ne_nil (a b : IdSet) (h : diff a b ≠ []) : a ≠ [] := by
   intro ha; subst ha; exact h rfl
+theorem inter_ne_nil (a b : IdSet) (h : inter a b ≠ []) : a ≠ [] := by
+  intro ha; subst ha; exact h rfl
 
 
 /-! ### eligibility as a function of the tag table -/
@@ -265,45 +267,6 @@ theorem sim_attachConv (s : St) (n c : String) : Sim s.tags (attachConv s n c).1
       · exact Sim.refl _
       · exact sim_sins _ _ _ _ (by assumption) (by rfl) (by rfl)
 
-theorem sim_detachConv (s : St) (n c : String) : Sim s.tags (detachConv s n c).tags := by
-  unfold detachConv
-  split
-  · exact Sim.refl _
-  · dsimp only
-    split <;> exact sim_sins _ _ _ _ (by assumption) (by rfl) (by rfl)
-
-theorem detachConv_toconv (s : St) (n c : String) :
-    ∃ d, (detachConv s n c).toconv = sins c (diff ((sget s.toconv c).getD []) d) s.toconv ∨
-      (detachConv s n c).toconv = s.toconv := by
-  unfold detachConv
-  split
-  · exact ⟨[], Or.inr rfl⟩
-  · dsimp only
-    split <;> exact ⟨_, Or.inl rfl⟩
-
-theorem detachConv_pending (s : St) (n c c' : String)
-    (h : (sget (detachConv s n c).toconv c').getD [] ≠ []) : (sget s.toconv c').getD [] ≠ [] := by
-  obtain ⟨d, hd | hd⟩ := detachConv_toconv s n c
-  · rw [hd, sget_sins] at h
-    split at h
-    · rename_i hc; subst hc
-      exact diff_ne_nil _ _ (by simpa using h)
-    · exact h
-  · rw [hd] at h; exact h
-
-theorem convFree_foldl_detach (n : String) (l : List String) (X : St)
-    (h : ConvFree X.convs X.toconv X.convert) :
-    ConvFree (l.foldl (fun s c => detachConv s n c) X).convs (l.foldl (fun s c => detachConv s n c) X).toconv
-      (l.foldl (fun s c => detachConv s n c) X).convert := by
-  induction l generalizing X with
-  | nil => exact h
-  | cons a l ih =>
-    apply ih
-    intro c hc hp
-    rw [detachConv_convert]
-    rw [detachConv_convs] at hc
-    exact h c hc (detachConv_pending _ _ _ _ hp)
-
 /-! ### what the job starters establish -/
 
 theorem startTagging_free (s : St) (c : Option String) :
@@ -354,6 +317,182 @@ theorem nostuck_startMerge (X : St) (h : NoStuck X) : NoStuck (startMerge X) :=
 theorem nostuck_release (X : St) (fs : List Nat) (h : NoStuck X) : NoStuck (release X fs) :=
   h.congr (by simp) (by simp) (by simp) (by simp) (by simp)
 
+
+/-! ### `detachConv` (with `converterOutputDropped`) -- CHANGED (dropped)
+
+`detachConv` no longer keeps the eligibility picture (`sim_detachConv` is false now: `outputDropped`
+makes payload tags pending).  What it keeps: the references of every entry (`RefsOf`), and `TagFree`
+(`outputDropped` ends with `startTagging`). -/
+
+/-- every entry of `l'` has the references of an entry of `l` -/
+def RefsOf (l l' : List (String × Tag)) : Prop := ∀ nt' ∈ l', ∃ nt ∈ l, nt.2.refs = nt'.2.refs
+
+theorem RefsOf.refl (l : List (String × Tag)) : RefsOf l l := fun nt h => ⟨nt, h, rfl⟩
+
+theorem RefsOf.trans {a b c : List (String × Tag)} (h1 : RefsOf a b) (h2 : RefsOf b c) : RefsOf a c := by
+  intro nt h
+  obtain ⟨nt1, hm1, e1⟩ := h2 nt h
+  obtain ⟨nt2, hm2, e2⟩ := h1 nt1 hm1
+  exact ⟨nt2, hm2, e2.trans e1⟩
+
+theorem Sim.refsOf {l l' : List (String × Tag)} (h : Sim l l') : RefsOf l l' := by
+  intro nt hm
+  obtain ⟨nt1, hm1, _, e2⟩ := h.mem nt hm
+  exact ⟨nt1, hm1, e2⟩
+
+theorem RefsOf.noRef {l l' : List (String × Tag)} {name : String} (h : RefsOf l l') (hn : NoRef l name) :
+    NoRef l' name := by
+  intro nt' hm
+  obtain ⟨nt, hm1, e2⟩ := h nt' hm
+  rw [← e2]; exact hn nt hm1
+
+theorem refsOf_sins (l : List (String × Tag)) (n : String) (t t' : Tag) (h : sget l n = some t)
+    (e2 : t.refs = t'.refs) : RefsOf l (sins n t' l) := by
+  intro nt hm
+  rcases mem_sins _ _ _ _ hm with hm | hm
+  · subst hm
+    exact ⟨(n, t), sget_some_mem _ _ _ h, e2⟩
+  · exact ⟨nt, hm, rfl⟩
+
+theorem inheritOne_refs (all : Nat) (T : List (String × Tag)) (t : Tag) : (inheritOne all T t).refs = t.refs := by
+  unfold inheritOne
+  split
+  · rfl
+  · split <;> rfl
+
+theorem refsOf_inheritPass (all : Nat) (T0 : List (String × Tag)) (l : List (String × Tag))
+    (acc : List (String × Tag) × List String) (h : RefsOf T0 acc.1) :
+    RefsOf T0 (l.foldl (fun (acc : List (String × Tag) × List String) (nt : String × Tag) =>
+      let (tags, resolved) := acc
+      let n := nt.1
+      if resolved.contains n then acc
+      else match sget tags n with
+        | none => acc
+        | some t =>
+          if t.refs.all (fun r => resolved.contains r) then
+            (sins n (inheritOne all tags t) tags, n :: resolved)
+          else acc) acc).1 := by
+  induction l generalizing acc with
+  | nil => exact h
+  | cons a l ih =>
+    simp only [List.foldl_cons]
+    apply ih
+    obtain ⟨tg, rs⟩ := acc
+    dsimp only
+    split
+    · exact h
+    · split
+      · exact h
+      · rename_i t ht
+        split
+        · exact h.trans (refsOf_sins _ _ _ _ ht (inheritOne_refs _ _ _).symm)
+        · exact h
+
+theorem refsOf_inheritLoop (all : Nat) (T0 : List (String × Tag)) :
+    ∀ fuel tags resolved, RefsOf T0 tags → RefsOf T0 (inheritLoop all fuel tags resolved).1 := by
+  intro fuel
+  induction fuel with
+  | zero => intro tags resolved h; simpa [inheritLoop] using h
+  | succ fuel ih =>
+    intro tags resolved h
+    simp only [inheritLoop]
+    split
+    · exact h
+    · exact ih _ _ (refsOf_inheritPass all T0 tags (tags, resolved) h)
+
+theorem refsOf_inherit (s : St) : RefsOf s.tags (inherit s).tags := by
+  show RefsOf s.tags (inheritLoop s.all (s.tags.length + 1) s.tags []).1
+  exact refsOf_inheritLoop s.all s.tags _ _ _ (RefsOf.refl _)
+
+theorem refsOf_outputDropped (s : St) (ch : Option String) : RefsOf s.tags (outputDropped s ch).tags := by
+  unfold outputDropped
+  split
+  · dsimp only
+    rw [startTagging_tags, invalidatedDuringTaggingJob_tags]
+    refine RefsOf.trans ?_ (refsOf_inherit _)
+    intro nt' hm
+    obtain ⟨nt, hm1, e⟩ := List.mem_map.mp hm
+    refine ⟨nt, hm1, ?_⟩
+    rw [← e]
+    split <;> rfl
+  · exact RefsOf.refl _
+
+theorem tagFree_outputDropped (s : St) (ch : Option String) (h : TagFree s.tags s.tag) :
+    TagFree (outputDropped s ch).tags (outputDropped s ch).tag := by
+  unfold outputDropped
+  split
+  · exact startTagging_free _ _
+  · exact h
+
+-- CHANGED (dropped): was `sim_detachConv : Sim s.tags (detachConv s n c).tags` (false now)
+theorem refsOf_detachConv (s : St) (n c : String) (ch : Option String) :
+    RefsOf s.tags (detachConv s n c ch).tags := by
+  unfold detachConv
+  split
+  · exact RefsOf.refl _
+  · dsimp only
+    split
+    · exact (refsOf_sins _ _ _ _ (by assumption) (by rfl)).trans (refsOf_outputDropped _ _)
+    · exact refsOf_sins _ _ _ _ (by assumption) (by rfl)
+
+-- CHANGED (dropped): replaces the use of `sim_detachConv` + `detachConv_tag` (both false now)
+theorem tagFree_detachConv (s : St) (n c : String) (ch : Option String) (h : TagFree s.tags s.tag) :
+    TagFree (detachConv s n c ch).tags (detachConv s n c ch).tag := by
+  unfold detachConv
+  split
+  · exact h
+  · dsimp only
+    split
+    · apply tagFree_outputDropped
+      exact (sim_sins _ _ _ _ (by assumption) (by rfl) (by rfl)).tagFree h
+    · exact (sim_sins _ _ _ _ (by assumption) (by rfl) (by rfl)).tagFree h
+
+theorem refsOf_foldl_detach (n : String) (ch : Option String) (l : List String) (X : St) :
+    RefsOf X.tags (l.foldl (fun s c => detachConv s n c ch) X).tags := by
+  induction l generalizing X with
+  | nil => exact RefsOf.refl _
+  | cons a l ih => exact (refsOf_detachConv X n a ch).trans (ih _)
+
+theorem tagFree_foldl_detach (n : String) (ch : Option String) (l : List String) (X : St)
+    (h : TagFree X.tags X.tag) :
+    TagFree (l.foldl (fun s c => detachConv s n c ch) X).tags (l.foldl (fun s c => detachConv s n c ch) X).tag := by
+  induction l generalizing X with
+  | nil => exact h
+  | cons a l ih => exact ih _ (tagFree_detachConv X n a ch h)
+
+theorem detachConv_toconv (s : St) (n c : String) (ch : Option String) : -- CHANGED (dropped)
+    ∃ d, (detachConv s n c ch).toconv = sins c (inter ((sget s.toconv c).getD []) d) s.toconv ∨  -- CHANGED (detach)
+      (detachConv s n c ch).toconv = s.toconv := by
+  unfold detachConv
+  split
+  · exact ⟨[], Or.inr rfl⟩
+  · dsimp only
+    split
+    · rw [outputDropped_toconv]; exact ⟨_, Or.inl rfl⟩
+    · exact ⟨_, Or.inl rfl⟩
+
+theorem detachConv_pending (s : St) (n c c' : String) (ch : Option String) -- CHANGED (dropped)
+    (h : (sget (detachConv s n c ch).toconv c').getD [] ≠ []) : (sget s.toconv c').getD [] ≠ [] := by
+  obtain ⟨d, hd | hd⟩ := detachConv_toconv s n c ch
+  · rw [hd, sget_sins] at h
+    split at h
+    · rename_i hc; subst hc
+      exact inter_ne_nil _ _ (by simpa using h)
+    · exact h
+  · rw [hd] at h; exact h
+
+theorem convFree_foldl_detach (n : String) (ch : Option String) (l : List String) (X : St) -- CHANGED (dropped)
+    (h : ConvFree X.convs X.toconv X.convert) :
+    ConvFree (l.foldl (fun s c => detachConv s n c ch) X).convs (l.foldl (fun s c => detachConv s n c ch) X).toconv
+      (l.foldl (fun s c => detachConv s n c ch) X).convert := by
+  induction l generalizing X with
+  | nil => exact h
+  | cons a l ih =>
+    apply ih
+    intro c hc hp
+    rw [detachConv_convert _ _ _ ch]
+    rw [detachConv_convs _ _ _ ch] at hc
+    exact h c hc (detachConv_pending _ _ _ _ _ hp)
 
 /-! ### per event -/
 
@@ -469,13 +608,12 @@ theorem nostuck_updConv (s : St) (a b) (st : Started) (h : NoStuck s) :
     · exact h
     · refine ⟨?_, startConverter_free _⟩
       rw [startConverter_tags, startConverter_tag]
-      have e : ∀ (l1 l2 : List String),
-          (l2.foldl (fun s c => (attachConv s a c).1) (l1.foldl (fun s c => detachConv s a c) s)).tag = s.tag := by
-        intro l1 l2; frame
+      have e : ∀ (l2 : List String) (X : St),
+          (l2.foldl (fun s c => (attachConv s a c).1) X).tag = X.tag := by
+        intro l2 X; frame
       rw [e]
-      refine Sim.tagFree ?_ h.1
-      exact (sim_foldl _ (fun s c => sim_detachConv s a c) _ _).trans
-        (sim_foldl _ (fun s c => sim_attachConv s a c) _ _)
+      refine Sim.tagFree (sim_foldl _ (fun s c => sim_attachConv s a c) _ _) ?_
+      exact tagFree_foldl_detach a st.tag _ s h.1
 
 theorem NoStuck.of_sim {s X : St} (h : NoStuck s) (hs : Sim s.tags X.tags) (e2 : X.tag = s.tag)
     (e3 : X.convs = s.convs) (e4 : X.toconv = s.toconv) (e5 : X.convert = s.convert) : NoStuck X := by
@@ -564,14 +702,10 @@ theorem nostuck_delTag (s : St) (a) (st : Started) (h : NoStuck s) (hr : RefByWF
   have hnr := noRef_of_refBy s a t hr ht hrb'
   dsimp only
   apply nostuck_foldl_delRefBy
-  have hsim : Sim s.tags (t.convs.foldl (fun s c => detachConv s a c) s).tags :=
-    sim_foldl _ (fun s c => sim_detachConv s a c) _ _
   refine ⟨?_, ?_⟩
-  · apply tagFree_sdel _ _ _ (hsim.noRef hnr)
-    have e : (t.convs.foldl (fun s c => detachConv s a c) s).tag = s.tag := by frame
-    rw [e]
-    exact hsim.tagFree h.1
-  · exact convFree_foldl_detach a t.convs s h.2
+  · apply tagFree_sdel _ _ _ ((refsOf_foldl_detach a st.tag t.convs s).noRef hnr)
+    exact tagFree_foldl_detach a st.tag t.convs s h.1
+  · exact convFree_foldl_detach a st.tag t.convs s h.2
 
 theorem nostuck_step (s : St) (e : Ev) (st : Started) (h : NoStuck s) (hr : RefByWF s) :
     NoStuck (step s e st).1 := by
